@@ -1,5 +1,6 @@
 /-  png.scan <hex> -> ok <order> <firstIfd> <tiffOffset> <exifLength> | err NoExif | fuel -/
 import Imeta.Model.Png
+import Imeta.Model.PngReq
 namespace Imeta.PngDrv
 open Imeta
 def handle : List String → Option String
@@ -10,5 +11,8 @@ def handle : List String → Option String
       | .err k => pure ("err " ++ k.name)
       | .panic _ => pure "panic"
       | .fuel => pure "fuel"
+  | ["png.req", hex] => do
+      let b ← parseHex hex
+      pure s!"req={Png.scanReq b}"
   | _ => none
 end Imeta.PngDrv
